@@ -32,6 +32,8 @@ def _prep(case):
     r = float(case['rate'])
     T = np.array(case['t'], dtype=np.int64)
     times = T / r
+    if case.get('tdtype'):
+        times = times.astype(case['tdtype'])         # e.g. float32 spike times (exactly representable ones only, see exact())
     # bin: `bin` samples, optionally plus a fraction of a sample (the code truncates rate*bin_size)
     bin_size = (case['bin'] + case.get('binfrac', 0.)) / r
     # window: (2*half+1) bins by default; `wmult` gives another multiple of the bin with the same half window
@@ -82,6 +84,15 @@ def impl(case):
             ids = [c + base for c in ids]
             if case.get('idskind') == 'array':
                 ids = np.array(ids, dtype=np.int64)
+            elif case.get('idskind') == 'array32':
+                ids = np.array(ids, dtype=np.int32)
+            if case.get('pre_ids') is not None and isinstance(ids, np.ndarray):
+                # an earlier call with the SAME id array object holding another order, then reordered in place
+                want = ids.copy()
+                ids[:] = np.array([c + base for c in case['pre_ids']], dtype=ids.dtype)
+                correlograms(times, sc, cluster_ids=ids, sample_rate=r, bin_size=bin_size,
+                             window_size=window, symmetrize=case['sym'])
+                ids[:] = want
         if case.get('timeskind') == 'list':      # spike times given as a plain list
             times = times.tolist()
         keep = (list(times) if isinstance(times, list) else times.copy(), sc.copy(), None if ids is None else list(ids))
@@ -267,6 +278,12 @@ def tally(rep, case, impl_res, ans):
                 rep.count('ids:with_empty')
         if len(set(case['t'])) < len(case['t']):
             rep.count('equal_times')
+        rep.count('times_dtype:%s' % case.get('tdtype', 'float64'))
+        rep.count('ids_container:%s' % (case.get('idskind', 'list') if ids is not None else 'None'))
+        if case.get('pre_ids') is not None:
+            rep.count('id_array_reordered_in_place_after_an_earlier_call')
+        if case['t'] and case['t'][-1] >= 2 ** 25:
+            rep.count('sample_numbers_beyond_2^25')
 
 
 def classify(case, impl_res, ans, why):
@@ -376,10 +393,21 @@ def gen(tier, rng):
         if rng.random() < .8:
             rng.shuffle(pool)
             c['ids'] = list(pool)
-            c['idskind'] = rng.pick(['list', 'array'])
+            c['idskind'] = rng.pick(['list', 'array', 'array32'])
+            if c['idskind'] != 'list' and rng.random() < .5:
+                c['pre_ids'] = rng.sample(c['ids'], len(c['ids']))
         if rng.random() < .2:
             c['timeskind'] = 'list'
         if c['dtype'] == 'int64' and rng.random() < .3:
             c['idbase'] = rng.pick([1000, 1000000, 5000000])    # large cluster ids
+        if rng.random() < .25:
+            # float32 spike times late in a long recording: whole seconds plus eighths are exact in float32 and
+            # their product with the rate is an exact integer in float64 (what the code computes), not in float32
+            c['rate'] = rng.pick([30000., 25000., 1000.])
+            g = int(c['rate']) // 8
+            t0 = int(c['rate']) * rng.randrange(1200, 4000)
+            c['t'] = [t0 + g * x for x in c['t']]
+            c['bin'] = g * rng.pick([1, 2, 3])
+            c['tdtype'] = 'float32'
         if exact(c):
             yield c
